@@ -135,6 +135,15 @@ func (c *Collection) startDCPFeed(
 	c.bucket.mutex.Lock()
 	defer c.bucket.mutex.Unlock()
 
+	if args.Backfill == sgbucket.FeedNoBackfill {
+		// With no backfill query to fail, make sure the store is still there: it may have been shut
+		// down (CloseAndDelete, last Close) through another handle while this call was waiting for the
+		// mutex, and a feed registered now would never be ended by anybody.
+		var one int
+		if err := scan(c.bucket._db().QueryRow(`SELECT 1`), &one); err != nil {
+			return nil, err
+		}
+	}
 	if args.Backfill != sgbucket.FeedNoBackfill {
 		debug("%s starting backfill from CAS 0x%x", feed, startCas)
 		feed.events.push(&sgbucket.FeedEvent{Opcode: sgbucket.FeedOpBeginBackfill})
